@@ -1076,11 +1076,16 @@ w('C03', 'claim recorded before the proof is checked (record moved up)', 'C03.R6
   ('x/ophost/keeper/msg_server.go', '\tif err := ms.RecordProvenWithdrawal(ctx, bridgeId, withdrawalHash); err != nil {\n\t\treturn nil, err\n\t}\n\n\t// transfer asset', '\t// transfer asset'))
 w('C15', 'TotalBondedTokens answers a constant for an empty height (no store read)', 'C15.R7',
   ('x/opchild/keeper/host_validator_store.go', 'func (hv HostValidatorStore) TotalBondedTokens(ctx context.Context) (math.Int, error) {\n', 'func (hv HostValidatorStore) TotalBondedTokens(ctx context.Context) (math.Int, error) {\n\tif hv.consensusAddressCodec == nil {\n\t\treturn math.OneInt(), nil\n\t}\n'))
+w('C10', 'exported deposit counter read raw from the store, error ignored (0 for a bridge without deposits)', 'C10.R7',
+  (HG, '\t\tnextL1Sequence, err := k.GetNextL1Sequence(ctx, bridgeId)\n\t\tif err != nil {\n\t\t\treturn true, err\n\t\t}\n', '\t\tnextL1Sequence, _ := k.NextL1Sequences.Get(ctx, bridgeId)\n'))
 # wave g
 wseed('C01g','C01.R4'); wseed('C02g','C02.R1'); wseed('C03g','C03.R6'); wseed('C04g','C04.R6'); wseed('C05g','C05.R8')
 wseed('C06g','C06.R1'); wseed('C07g','C07.R3'); wseed('C08g','C08.R1'); wseed('C09g','C09.R6'); wseed('C10g','C10.R7')
 wseed('C11g','C11.R7'); wseed('C12g','C12.R3'); wseed('C13g','C13.R4'); wseed('C14g','C14.R3'); wseed('C15g','C15.R7')
 wseed('C16g','C16.R2'); wseed('C17g','C17.R4'); wseed('C18g','C18.R6'); wseed('C19g','C19.R7'); wseed('C20g','C20.R1')
+# half wave h
+wseed('C03h','C03.R5'); wseed('C05h','C05.R6'); wseed('C06h','C06.R1'); wseed('C10h','C10.R3'); wseed('C11h','C11.R1')
+wseed('C12h','C12.R5'); wseed('C13h','C13.R3'); wseed('C15h','C15.R8'); wseed('C16h','C16.R3'); wseed('C19h','C19.R8')
 
 # round 6 (composite refactors) and mutants in their shapes
 for b in ['B31','B32','B33','B34','B35','B36']:
